@@ -4,6 +4,8 @@
 mod checks;
 mod client;
 mod endpoint;
+mod model;
+mod seq;
 mod rec;
 mod report;
 mod rng;
@@ -108,6 +110,10 @@ fn parse_run(args: &[String]) -> RunArgs {
 
 fn cmd_run(args: &[String]) {
     let a = parse_run(args);
+    if a.engine != "miri" {
+        let limit = a.extra.get("watchdog_s").and_then(|s| s.parse().ok()).unwrap_or(120);
+        start_watchdog(limit);
+    }
     let Some(sc) = scen::find(&a.scenario) else {
         eprintln!("unknown scenario {}", a.scenario);
         std::process::exit(2);
@@ -162,7 +168,43 @@ fn cmd_run(args: &[String]) {
     }
 }
 
+/// Wall-clock start (ms since process start) of the running episode, 0 when idle.
+static EPISODE_STARTED_MS: std::sync::atomic::AtomicU64 = std::sync::atomic::AtomicU64::new(0);
+static EPISODE_LABEL: std::sync::Mutex<String> = std::sync::Mutex::new(String::new());
+
+/// A generous wall-clock watchdog around every episode. Virtual-time episodes take
+/// milliseconds; one that does not finish is reported by the runner as inconclusive
+/// (never as a violation) and makes the run incomplete.
+fn start_watchdog(limit_s: u64) {
+    let t0 = std::time::Instant::now();
+    std::thread::spawn(move || loop {
+        std::thread::sleep(std::time::Duration::from_millis(500));
+        let started = EPISODE_STARTED_MS.load(std::sync::atomic::Ordering::SeqCst);
+        if started == 0 {
+            continue;
+        }
+        let now = t0.elapsed().as_millis() as u64 + 1;
+        if now.saturating_sub(started) > limit_s * 1000 {
+            eprintln!("EPISODE-WATCHDOG: {} did not finish within {} s of wall time", EPISODE_LABEL.lock().unwrap(), limit_s);
+            std::process::exit(97);
+        }
+    });
+    WATCHDOG_T0.get_or_init(|| t0);
+}
+
+static WATCHDOG_T0: std::sync::OnceLock<std::time::Instant> = std::sync::OnceLock::new();
+
 fn run_episode(sc: &scen::Scenario, p: &EpParams, shard: &mut ShardReport) -> (String, bool, usize) {
+    if let Some(t0) = WATCHDOG_T0.get() {
+        *EPISODE_LABEL.lock().unwrap() = format!("scenario={} index={} ep_seed={}", p.scenario, p.get("index").unwrap_or("?"), p.ep_seed);
+        EPISODE_STARTED_MS.store(t0.elapsed().as_millis() as u64 + 1, std::sync::atomic::Ordering::SeqCst);
+    }
+    let r = run_episode_inner(sc, p, shard);
+    EPISODE_STARTED_MS.store(0, std::sync::atomic::Ordering::SeqCst);
+    r
+}
+
+fn run_episode_inner(sc: &scen::Scenario, p: &EpParams, shard: &mut ShardReport) -> (String, bool, usize) {
     let panics_before = world::panic_count();
     let yields = p.get("yields").map(|v| v != "0").unwrap_or(true);
     deltio::verif::install(p.ep_seed ^ 0x5EED, yields);
